@@ -19,8 +19,10 @@ def sfx(d, cfg):
 
 
 def print_target(Job, d, cfg, tier="quick"):
+    import native_replay
     return Job("L2_print_target" + sfx(d, cfg), "harness/basic_lines.c", "h_print_target",
-               enforce=["print_target_line_number"], defines=defs_for(d, cfg), includes=INC, tier=tier, cover=True)
+               enforce=["print_target_line_number"], defines=defs_for(d, cfg), includes=INC, tier=tier, cover=True,
+               replay=native_replay.replay_print_target)
 
 
 def count(Job, d, cfg, tier="quick"):
